@@ -84,10 +84,16 @@ void ParallelAction::onStart() {
     AssembleAction::onStart();
 
     const auto state_at_entry = state();
+    const auto reset_count_at_entry = resetCount();
 
     for (size_t index = 0; index < children_.size(); ++index) {
         Action *action = children_.at(index);
-        if (!action->start()) {
+        const bool is_started = action->start();
+        //! 子动作 start() 期间的回调可能已 reset() 并重新 start() 了本动作：状态看起来没变，但这一轮已不存在，
+        //! 子动作都属于新一轮（有的已经结束），不能再把它们当作启动失败，也不能再继续启动
+        if (resetCount() != reset_count_at_entry)
+            return;
+        if (!is_started) {
             finished_children_[index] = false;
             //! 如果是任一失败都退出，那么要直接结束
             //! 先停止其余子动作再 finish()：finish() 的 final 回调里可能已重新启动本动作，之后不能再动子动作
